@@ -387,3 +387,6 @@ def replay_history(rp):
 
 
 REPLAY = {"history": replay_history, "leak": replay_leak, "illegal": replay_illegal, "hashseed": replay_hashseed, "rng": replay_rng, "frame": replay_frame}
+
+from suites import thorough as _th
+GROUPS["thorough:history"] = _th.bounded_from_replay("bounded/api-history", replay_history)
